@@ -35,11 +35,11 @@ theorem sizeB_eq (c : Cfg) (l : List (Nat × Nat × Nat)) :
 
 /-- **C12, queue coder, logarithmic form.** -/
 theorem C12_range_size_bound_log {Sym : Type} {c : Cfg} (hc : RValid c) (msg : List (MStep Sym))
-    (hv : ∀ x ∈ msg, x.Valid c) :
+    (hn : MsgFits c msg.length) (hv : ∀ x ∈ msg, x.Valid c) :
     ∃ e nb, encodeMsg c (Encoder.empty c) msg = .ok e ∧ numBits c e = .ok nb ∧
       (nb : ℝ) ≤ info (summaries c (msg.map MStep.spec)) + rounding (summaries c (msg.map MStep.spec))
         + (c.S + 2 * c.W : ℕ) := by
-  obtain ⟨e, nb, he, hnb, hle⟩ := C12_range_size_bound_S hc msg hv
+  obtain ⟨e, nb, he, hnb, hle⟩ := C12_range_size_bound_S hc msg hn hv
   refine ⟨e, nb, he, hnb, ?_⟩
   rw [sizeA_eq, sizeB_eq] at hle
   have hp : ∀ s ∈ summaries c (msg.map MStep.spec), 0 < s.1 := by
@@ -55,3 +55,5 @@ theorem C12_range_size_bound_log {Sym : Type} {c : Cfg} (hc : RValid c) (msg : L
 end CV.Range
 
 #print axioms CV.Range.C12_range_size_bound_log
+#print axioms CV.Range.sizeA_eq
+#print axioms CV.Range.sizeB_eq
